@@ -2,6 +2,8 @@
    are about.  Requests:
      ("encode" spec)            -> (ehdr-bytes (shdr-bytes ...) (phdr-bytes ...))   Spec encoders
      ("run" img spec queries)   -> (wf (model-answer ...) (spec-answer ...))
+     ("history" img spec ops)   -> (wf (model-answer ...) (spec-answer ...)): the calls ops made IN ORDER on ONE object
+                                   ops = ("take" type|"<none>" k) ("iter" type|"<none>") ("has" #n) ("index" #n) ("by_name" #n)
      ("anchors")                -> (((machine code name) ...) ((machine code name) ...))   Spec/C01Machines.v sh_anchors, p_anchors
    spec    = (is64 le (ei_version ei_osabi ei_abiversion #pad e_type ... e_shstrndx)
               ((#name (sh_name ... sh_entsize)) ...) ((p_type p_flags p_offset ... p_align) ...) shstrndx)
@@ -10,7 +12,7 @@
    Extracted with ExtrOcamlBasic only. *)
 From Coq Require Import String.
 From PV Require Import Base.Bytes Base.Outcome Base.Fmt Base.PyData.
-From PV Require Import Spec.C01Obs Spec.C01Image Spec.C01Machines Model.C01ElfFile.
+From PV Require Import Spec.C01Obs Spec.C01Image Spec.C01Machines Model.C01ElfFile Model.C01History Spec.C01History.
 Open Scope string_scope.
 Open Scope Z_scope.
 
@@ -114,6 +116,25 @@ Definition spec_answer (s : image_spec) (q : sx) : sx :=
                       (match i with Some j => nth_sec s j | None => None end)])
   else sx_err "unknown-query".
 
+(* ---- call histories on one object *)
+Definition rd_oty (x : sx) : option hval :=
+  match x with SS n => if is n "<none>" then None else Some (HName n) | _ => Some (HZ (gI x)) end.
+Definition rd_hop (x : sx) : hop :=
+  let l := gL x in
+  let op := gS (nthx 0 l) in
+  if is op "take" then HTake (rd_oty (nthx 1 l)) (gI (nthx 2 l))
+  else if is op "iter" then HIter (rd_oty (nthx 1 l))
+  else if is op "has" then HHas (gB (nthx 1 l))
+  else if is op "index" then HIndex (gB (nthx 1 l))
+  else HByName (gB (nthx 1 l)).
+Definition sx_hans (a : hans) : sx :=
+  match a with
+  | ASects l => SL (map (fun s => sx_section (obs_sect s)) l)
+  | ABool b => sx_bool b
+  | AIndex i => sx_opt SI i
+  | ASect x => sx_opt (fun s => sx_section (obs_sect s)) x
+  end.
+
 Definition dispatch (req : sx) : sx :=
   let l := gL req in
   let op := gS (nthx 0 l) in
@@ -122,6 +143,16 @@ Definition dispatch (req : sx) : sx :=
     SL [SB (encode_ehdr s);
         SL (map (fun x => SB (encode_shdr s (snd x))) (i_sections s));
         SL (map (fun p => SB (encode_phdr s p)) (i_segments s))]
+  else if is op "history" then
+    let img := gB (nthx 1 l) in
+    let s := rd_spec (nthx 2 l) in
+    let ops := map rd_hop (gL (nthx 3 l)) in
+    SL [sx_bool (wf_image img s);
+        match elf_open img with
+        | Ok ef => SL (map (sx_res sx_hans) (snd (hrun ef None ops)))
+        | Err e => SL (map (fun _ => sx_of_err e) ops)
+        end;
+        SL (map (fun op => sx_ok (sx_hans (exp_hans s op))) ops)]
   else if is op "anchors" then
     let pr (a : string * Z * string) := match a with (k, z, n) => SL [SS k; SI z; SS n] end in
     SL [SL (map pr sh_anchors); SL (map pr p_anchors)]
